@@ -373,3 +373,94 @@ def private(case, ctx):
     if r == 1:
         pub, _ = pt_get(k)
         ctx.check(pub == M.pub_of(d) and int.from_bytes(k.raw(32, 96), "little") == d, "imported key differs from the encoded one", "priv/%s/value" % cont)
+
+
+# ---------------------------------------------------------------------------
+# SM9 points (G1 over Fp, G2 over Fp2) through the uncompressed-octet decoders and the master public key containers
+from vlib.ref import sm9 as S9
+from vlib import sm9io
+
+SM9_CLASSES = ["valid", "valid", "neg", "wrong-y", "coord+p", "coord=p", "max", "zero", "random"]
+sm9_case = st.fixed_dictionaries({"grp": st.sampled_from(["g1", "g2"]), "cls": st.sampled_from(SM9_CLASSES), "k": st.integers(1, 1 << 30),
+                                  "which": st.integers(0, 3), "v": gen.z256(), "cont": st.sampled_from(["octets", "octets", "master_pub_der"])})
+
+
+def _g2_valid(X, Y):
+    return all(0 <= c < S9.P for c in (X[0], X[1], Y[0], Y[1])) and S9.g2_on_curve((X, Y))
+
+
+@P.sub("sm9points", sm9_case, quick=6000, thorough=200000)
+def sm9points(case, ctx):
+    """SM9 G1/G2 points: coordinates >= p (incl. c+p for every coordinate half), off-curve, zero through octets and master public key DER"""
+    l = lib(ctx.variant)
+    grp, cls, which = case["grp"], case["cls"], case["which"]
+    v = u(case["v"])
+    p = S9.P
+    if grp == "g1":
+        pt = S9.g1_mul(case["k"], S9.P1)
+        coords = [pt[0], pt[1]]
+    else:
+        pt = S9.g2_mul(case["k"], S9.P2)
+        # octet order of an Fp2 element: high half (a1) first, then a0 - coords are kept in octet order
+        coords = [pt[0][1], pt[0][0], pt[1][1], pt[1][0]]
+    nc = len(coords)
+    i = which % nc
+    c = list(coords)
+    if cls == "neg":
+        if grp == "g1":
+            c[1] = (p - c[1]) % p
+        else:
+            c[2], c[3] = (p - c[2]) % p, (p - c[3]) % p
+    elif cls == "wrong-y":
+        c[nc - 1] = (c[nc - 1] + 1 + v % 5) % p
+    elif cls == "coord+p":
+        if c[i] + p >= gen.R256:
+            i = next((j for j in range(nc) if c[j] + p < gen.R256), None)
+            if i is None:
+                ctx.note("no-coordinate-fits-plus-p"); return
+        c[i] = c[i] + p
+    elif cls == "coord=p":
+        c[i] = p
+    elif cls == "max":
+        c = [gen.R256 - 1] * nc
+    elif cls == "zero":
+        c = [0] * nc
+    elif cls == "random":
+        c[i] = v % p
+    octs = b"\x04" + b"".join(x.to_bytes(32, "big") for x in c)
+    if grp == "g1":
+        valid = all(x < p for x in c) and S9.g1_on_curve((c[0], c[1]))
+        exp = (c[0], c[1])
+    else:
+        X, Y = (c[1], c[0]), (c[3], c[2])
+        valid = _g2_valid(X, Y)
+        exp = (X, Y)
+    ctx.case(nontrivial=cls != "valid", classes=[grp, cls, case["cont"]], ident=case, sample=case)
+    if case["cont"] == "octets":
+        if grp == "g1":
+            dst = Buf(96, fill=0)
+            r = l.sm9_z256_point_from_uncompressed_octets(dst, Buf.of(octs))
+            got = sm9io.pt1_get(dst)[0]
+        else:
+            dst = Buf(192, fill=0)
+            r = l.sm9_z256_twist_point_from_uncompressed_octets(dst, Buf.of(octs))
+            got = sm9io.pt2_get(dst)[0]
+        name = "sm9_z256_%spoint_from_uncompressed_octets" % ("" if grp == "g1" else "twist_")
+    else:
+        # master public key: SEQUENCE { BIT STRING octets }
+        der = D.enc_seq(D.enc_bits(octs))
+        if grp == "g1":
+            mk = obj("SM9_ENC_MASTER_KEY")
+            r, _ = _from_der(l, l.sm9_enc_master_public_key_from_der, der, mk)
+            got = sm9io.pt1_get(mk)[0]
+        else:
+            mk = obj("SM9_SIGN_MASTER_KEY")
+            r, _ = _from_der(l, l.sm9_sign_master_public_key_from_der, der, mk)
+            got = sm9io.pt2_get(mk)[0]
+        name = "sm9_%s_master_public_key_from_der" % ("enc" if grp == "g1" else "sign")
+    key = "sm9/%s/%s" % (grp, case["cont"])
+    if valid:
+        ctx.check(r == 1 and got == exp, "%s rejects or alters a valid %s point (ret=%d)" % (name, grp, r), key + "/rejects-valid")
+    else:
+        ctx.check(r != 1, "%s accepts invalid %s coordinates (class %s, coordinate #%d): ret=1, decoded point %s" % (name, grp, cls, i, got),
+                  key + ("/accepts-zero" if cls == "zero" else "/accepts-unreduced" if cls in ("coord+p", "coord=p", "max") else "/accepts-invalid"))
